@@ -19,25 +19,24 @@
 Require Import SF.Prelude SF.PySlice Gen.Gen_c02.
 Require Export SF.IndexBijSpec.
 
-
-
 Section Flat.
   Variable C : Type.
   Variable ceqb : C -> C -> bool.
   Variable of_Z : Z -> C.            (* the label that is the integer z *)
   Variable to_Z : C -> option Z.     (* Some z iff the label equals the integer z *)
 
+  Notation key := (key C).
+  Notation obs := (obs C).
+  Notation op := (op C).
+  Notation memb := (memb ceqb).
+
   (* isinstance(value, INT_TYPES): bool is a subclass of int *)
 
   (* ------------------------------------------------------------------ specification *)
 
-
   (* first position of x *)
 
-
-
   (* what can be observed of an index (probed with a list of keys) *)
-
 
   (* construction: accepted iff pairwise distinct *)
 
@@ -159,15 +158,12 @@ Section Flat.
      start -> pos; stop -> pos + 1 (inclusive) when the step is None or positive, and when walking down
      (fix c6f9ada) pos - 1, or None when that would be negative; step passed through *)
 
-
-
   Definition M_loc_to_iloc_slice (m : amap) :=
     loc_slice (fun k => match am_get m (fst k) with Some i => Ok i | None => Err "KeyError" end).
 
   (* ------------------------------------------------------------------ derivations (specification)
      every derivation of index.py builds its result through the constructor, so the derived index is
      M_index_init (labels the derivation computes); these are the label computations. *)
-
 
   (* Index.roll(shift): label at position i moves to (i + shift) mod n *)
 
@@ -267,7 +263,6 @@ Section Flat.
       if M_ext_validate g [] ks then M_go_extend_seq g1 ks else (g1, Err gen_append_dup_error)
     else M_go_extend_seq g ks.
 
-
   Definition M_go_step (g : go) (o : op) : go * res unit :=
     match o with
     | OpAppend k => M_go_append g k
@@ -301,10 +296,6 @@ Section Flat.
 
   (* extend is all-or-nothing: accepted iff no value is held and no value is repeated; then every
      value is appended in order, otherwise the index is unchanged *)
-
-
-
-
 
   (* the guard of the history theorem: the values of an extend must be keys on which the membership
      test of the index is plain list membership -- on a map-less (auto-integer) index a key that EQUALS
